@@ -33,3 +33,30 @@
   (forall ((x Int)) (! (=> (and (<= 0 x) (< x (plen I)) (isJumpIf (insnAt I x)))
                            (exists ((k Int)) (and (<= 0 k) (< k (Slice<seccomp.JumpIf>.len J)) (= (seccomp.JumpIf.index (select (Slice<seccomp.JumpIf>.arr J) k)) x))))
                        :pattern ((insnAt I x)))))
+; positions of a label (Go map semantics: an absent key reads as the empty slice)
+(define-fun labelPos ((L Map<Int~Slice<Int>>) (l Int)) Slice<Int>
+  (ite (select (Map<Int~Slice<Int>>.has L) l) (select (Map<Int~Slice<Int>>.val L) l) (mk.Slice<Int> ((as const (Array Int Int)) 0) 0 true)))
+; the representation invariant of a Program as one named predicate (the contract-level macro ri(p) is the same
+; statement; lemma riLink proves the equivalence). Callers that only pass it along keep it opaque.
+(define-fun riS ((P seccomp.Program)) Bool
+  (let ((I (seccomp.Program.instructions P)) (J (seccomp.Program.jumps P)) (L (seccomp.Program.labels P)))
+  (and
+    (forall ((x Int)) (! (=> (and (<= 0 x) (< x (plen I)))
+        (or (isRet (insnAt I x)) ((_ is I.bpf.Instruction.box.bpf.LoadAbsolute) (insnAt I x)) (isJumpIf (insnAt I x)))) :pattern ((insnAt I x))))
+    (forall ((k Int)) (! (=> (and (<= 0 k) (< k (Slice<seccomp.JumpIf>.len J)))
+        (and (<= 0 (seccomp.JumpIf.index (select (Slice<seccomp.JumpIf>.arr J) k)))
+             (< (seccomp.JumpIf.index (select (Slice<seccomp.JumpIf>.arr J) k)) (plen I))
+             (isJumpIf (insnAt I (seccomp.JumpIf.index (select (Slice<seccomp.JumpIf>.arr J) k)))))) :pattern ((select (Slice<seccomp.JumpIf>.arr J) k))))
+    (forall ((x Int)) (! (=> (and (<= 0 x) (< x (plen I)) (isJumpIf (insnAt I x)))
+        (and (= (bpf.JumpIf.SkipTrue (I.bpf.Instruction.unbox.bpf.JumpIf (insnAt I x))) 0)
+             (= (bpf.JumpIf.SkipFalse (I.bpf.Instruction.unbox.bpf.JumpIf (insnAt I x))) 0))) :pattern ((insnAt I x))))
+    (forall ((a Int) (b Int)) (! (=> (and (<= 0 a) (< a b) (< b (Slice<seccomp.JumpIf>.len J)))
+        (< (seccomp.JumpIf.index (select (Slice<seccomp.JumpIf>.arr J) a)) (seccomp.JumpIf.index (select (Slice<seccomp.JumpIf>.arr J) b))))
+        :pattern ((select (Slice<seccomp.JumpIf>.arr J) a) (select (Slice<seccomp.JumpIf>.arr J) b))))
+    (jumpsComplete I J)
+    (Map<Int~Slice<Int>>.nonnil L)
+    (forall ((l Int)) (! (and (>= (Slice<Int>.len (labelPos L l)) 0)
+        (forall ((m Int)) (! (=> (and (<= 0 m) (< m (Slice<Int>.len (labelPos L l))))
+             (and (<= 0 (select (Slice<Int>.arr (labelPos L l)) m)) (<= (select (Slice<Int>.arr (labelPos L l)) m) (plen I))))
+             :pattern ((select (Slice<Int>.arr (select (Map<Int~Slice<Int>>.val L) l)) m))))) :pattern ((select (Map<Int~Slice<Int>>.val L) l))))
+    (forall ((l Int)) (! (=> (> l (seccomp.Program.nextLabel P)) (not (select (Map<Int~Slice<Int>>.has L) l))) :pattern ((select (Map<Int~Slice<Int>>.has L) l)))))))
